@@ -228,6 +228,25 @@ func (c *evalCtx) eval(e Expr) Term {
 			kw = "forall"
 		}
 		bs := body.S
+		if len(x.Triggers) == 0 {
+			// default triggers: every element access x[v] / x[sidx(o, v)] on a bound variable,
+			// each as an alternative single pattern (covering all bound variables)
+			vars := map[string]bool{}
+			for _, v := range x.Vars {
+				vars[v.Name] = true
+			}
+			seen := map[string]bool{}
+			var pats []string
+			for _, t := range n.collectTriggers(x.Body, vars) {
+				if !seen[t] {
+					seen[t] = true
+					pats = append(pats, ":pattern ("+t+")")
+				}
+			}
+			if len(pats) > 0 && len(x.Vars) == 1 {
+				bs = "(! " + bs + " " + strings.Join(pats, " ") + ")"
+			}
+		}
 		if len(x.Triggers) > 0 {
 			var pats []string
 			for _, alt := range x.Triggers {
@@ -947,4 +966,66 @@ func (w *World) convert(a Term, to *Sort) Term {
 		panic(unsupportedErr("string->[]byte conversion"))
 	}
 	panic(unsupportedErr(fmt.Sprintf("conversion %s -> %s", from.Name, to.Name)))
+}
+
+// collectTriggers finds element accesses indexed directly by a bound variable.
+func (c *evalCtx) collectTriggers(e Expr, vars map[string]bool) []string {
+	var out []string
+	isVarIdx := func(i Expr) bool {
+		switch y := i.(type) {
+		case *EIdent:
+			return vars[y.Name]
+		case *ECall:
+			if y.Fn == "sidx" && len(y.Args) == 2 {
+				if id, ok := y.Args[1].(*EIdent); ok {
+					return vars[id.Name]
+				}
+			}
+		}
+		return false
+	}
+	var walk func(e Expr, cc *evalCtx)
+	walk = func(e Expr, cc *evalCtx) {
+		switch x := e.(type) {
+		case *EIndex:
+			if isVarIdx(x.I) {
+				func() {
+					defer func() { recover() }()
+					t := cc.eval(x)
+					out = append(out, t.S)
+				}()
+			}
+			walk(x.X, cc)
+			walk(x.I, cc)
+		case *EOld:
+			if cc.old != nil {
+				n := *cc
+				n.st = cc.old
+				walk(x.X, &n)
+			}
+		case *EUnary:
+			walk(x.X, cc)
+		case *EBinary:
+			walk(x.L, cc)
+			walk(x.R, cc)
+		case *ECall:
+			for _, a := range x.Args {
+				walk(a, cc)
+			}
+		case *EField:
+			walk(x.X, cc)
+		case *ECond:
+			walk(x.C, cc)
+			walk(x.T, cc)
+			walk(x.F, cc)
+		case *EIdent:
+			if le, ok := cc.lets[x.Name]; ok {
+				if _, bound := cc.lookup(x.Name); !bound {
+					walk(le, cc)
+				}
+			}
+		}
+	}
+	walk(e, c)
+	return out
 }
